@@ -21,7 +21,6 @@ partial def parsePath : List String → Option (Path × List String)
   | "slq" :: r => some (.slq, r)
   | "kron" :: r => do let (p, r') ← parsePath r; some (.kron p, r')
   | "kronfb" :: r => do let (p, r') ← parsePath r; some (.kronFb p, r')
-  | "kronD12" :: r => do let (p, r') ← parsePath r; some (.kronD12 p, r')
   | "block" :: k :: r => do let k ← k.toNat?; let (p, r') ← parsePath r; some (.block p k, r')
   | "rep" :: bb :: rp :: r => do
       let bb ← parseDims bb; let rp ← parseDims rp; let (p, r') ← parsePath r; some (.rep p bb rp, r')
